@@ -147,7 +147,7 @@ CHECKS["C04"] = mk_civil("C04", "civil-time construction normalizes exactly",
     ["C04:cycle-small", "C04:cycle-big", "C04:boundary-product", "C04:dense-one-field", "C04:dense-field-pair"])
 CHECKS["C05"] = mk_civil("C05", "civil arithmetic and difference are exact inverses",
     "every aligned value of the 146097-day cycle (day: all days; month: 4800; year: 400; hour/minute/second: every day x time of day) at eras {0, max, min [, +-1, -6, +-1e3]} x n in {0, +-(1,2,23..32,59..61,365,366,1460,1461,36524,36525,146096..146098,2*146097,2^31,2^62), INT64_MIN, INT64_MIN+1, INT64_MAX}, and for hour/minute/second alignments (era 0) every whole number of days from 364 to 397 in both directions; plus every day of the 3 first/last representable years; plus boundary-year x boundary-month/day difference product; unrepresentable results skipped and counted",
-    "a+n, a-n, (a+n)-a, a-(a+n), b+(a-b), ++/--/+=/-= and all six relational operators compared with the linear index of the reference calendar, for each of the six alignments.",
+    "a+n, n+a, a+=n, a-n, a-=n, (a+n)-a, a-(a+n), b+(a-b), ++/-- (pre and post) and all six relational operators compared with the linear index of the reference calendar, for each of the six alignments.",
     ["C05:add:day:era0", "C05:add:second:era-max", "C05:add:month:era-min", "C05:sub:year", "C05:add:day:extreme-year", "C05:diff-limit", "C05:cross-compare"])
 CHECKS["C17"] = mk_civil("C17", "weekday / yearday / next / prev weekday",
     "all 146097 days of 2000-2399 x {get_weekday, get_yearday} and x 7 weekdays x {next_weekday, prev_weekday}, replicated at eras {0, -6, max, min [, -5, +1, +-1e3, +-1e9]} plus every day of years {INT64_MIN, INT64_MIN+1, INT64_MAX-1, INT64_MAX, -400..400 selected}",
@@ -290,7 +290,7 @@ CHECKS["C07"] = mk_simple("C07", "text_conf", "format() then parse() returns the
     "The composition law parse(fmt, format(fmt, t, fs, tz), any_zone) == (true, t, fs) is evaluated on the real library over the complete product (quick: a covering subset of format combinations in which every part value and every part pair with the date form occurs); no reference model needed.",
     ["C07:negative-year", "C07:many-digit-year", "C07:plain-year", "C07:all-subseconds", "C07:percent-s"], TEXT_NOTE, min_eval=1000000)
 CHECKS["C08"] = mk_simple("C08", "text_conf", "format() renders exactly what lookup() reports; no UB",
-    "ALL token sequences of length <= 3 (4) over a 37-token alphabet (%, E, O, :, *, digits 0,1,4,9,15,18,19,1024,1025, every library-defined conversion letter, a, j, c, x, space, a UTF-8 byte pair, NUL) = 52,060 (1.9 M) format strings x a panel of 14 (zone, instant, femtoseconds) triples taking every field to its extreme; plus ALL sequences of 2-3 units over a 55-unit alphabet (whole specifiers of both kinds, %% and %%%%, literals that look like conversion letters, dangling prefixes) x 4 (14) panel triples; plus every documented specifier alone and in RFC3339/RFC1123 combinations, strftime-delegated specifiers with flags/modifiers, on every zone x probe; ASan+UBSan build; class = rendered / malformed (safety only) / C-library run beyond the documented buffer growth limit",
+    "ALL token sequences of length <= 3 (4) over a 37-token alphabet (%, E, O, :, *, digits 0,1,4,9,15,18,19,1024,1025, every library-defined conversion letter, a, j, c, x, space, a UTF-8 byte pair, NUL) = 52,060 (1.9 M) format strings x a panel of 14 (zone, instant, femtoseconds) triples taking every field to its extreme; plus ALL sequences of 2-3 units over a 59-unit alphabet (incl. %E19S, %E33f, %E34S, %E1024f) (whole specifiers of both kinds, %% and %%%%, literals that look like conversion letters, dangling prefixes) x 4 (14) panel triples; plus every documented specifier alone and in RFC3339/RFC1123 combinations, strftime-delegated specifiers with flags/modifiers, on every zone x probe; ASan+UBSan build; class = rendered / malformed (safety only) / C-library run beyond the documented buffer growth limit",
     "Safety for every string (sanitizers, determinism); for well-formed strings the output must equal the reference rendering: library-defined specifiers rendered from lookup()'s fields by the documentation, every other run rendered by glibc strftime on a tm built independently from the same fields.",
     ["C08:rendered", "C08:malformed"], TEXT_NOTE, min_eval=500000)
 CHECKS["C09"] = mk_simple("C09", "text_conf", "parse() accepts exactly well-formed in-range input",
@@ -299,7 +299,7 @@ CHECKS["C09"] = mk_simple("C09", "text_conf", "parse() accepts exactly well-form
     ["C09:boundary-product:accept", "C09:boundary-product:reject", "C09:specifier-boundaries:accept", "C09:specifier-boundaries:reject", "C09:edit-replace:reject", "C09:edit-delete:accept", "C09:zone-interaction:accept", "C09:zone-interaction:reject", "C09:zone-transition:accept", "C09:zone-transition-leap60:accept", "C09:safety-panel"],
     TEXT_NOTE, min_eval=150000)
 CHECKS["C18"] = mk_simple("C18", "subsecond", "sub-second time points floor toward the past",
-    "duration panel {int64 ns/us/ms/(1/3 s)/fs; int64 s; int32 min, h; int16 s, min; int8 s, min}: EVERY value of the int8/int16 representations; [-1e5,1e5] and both limits -+1000 for int32; for int64 sub-second reps whole seconds {-2,-1,0,1,+-59,+-60,+-3599..3601,+-86400,+-2^31, limits -+2..4} x remainders {0,1,2,ratio/2-1..+1,ratio-2,ratio-1,10^k-1,10^k,10^k+1} on both sides of zero; x zones {UTC, fixed -30 s, fixed +5:45}; on each: split_seconds, lookup, convert, format %E*S, %E*f, %E#S/%E#f for # in {0,1,2,3,6,9,12,14,15,16,18}; parse (via %s and via %Y-%m-%d %H:%M:%S) into {int64/int32/int16/int8 s, int8/int16/int32/int64 min, int32/int64 h, int64 days} for every second within +-2 h of the epoch and within +-(2 units+2) of both limits of each target; class = duration x sign x multiple/non-multiple x in/out of range",
+    "duration panel {int64 ns/us/ms/(1/3 s)/fs; int64 s; int32 min, h; int16 s, min; int8 s, min}: EVERY value of the int8/int16 representations; [-1e5,1e5] and both limits -+1000 for int32; for int64 sub-second reps whole seconds {-2,-1,0,1,+-59,+-60,+-3599..3601,+-86400,+-2^31, limits -+2..4} x remainders {0,1,2,ratio/2-1..+1,ratio-2,ratio-1,10^k-1,10^k,10^k+1} on both sides of zero; x zones {UTC, fixed -30 s, fixed +5:45}; on each: split_seconds, lookup, convert, format %E*S, %E*f, %E#S/%E#f for # in {0,1,2,3,6,9,12,14,15,16,18,19,25,33,34,100}; parse (via %s and via %Y-%m-%d %H:%M:%S) into {int64/int32/int16/int8 s, int8/int16/int32/int64 min, int32/int64 h, int64 days} for every second within +-2 h of the epoch and within +-(2 units+2) of both limits of each target; class = duration x sign x multiple/non-multiple x in/out of range",
     "128-bit floor division is the oracle: second = floor(count*num/den), remainder >= 0, fractional digits truncated (never rounded); parse into a coarse target = floor(sec/Num) if it fits the representation, otherwise false.",
     ["C18:int64-ns:neg-nonmultiple", "C18:int8-s:neg-multiple", "C18:int64-third:neg-nonmultiple", "C18:parse:int32-h:neg-nonmultiple", "C18:parse:int8-min:out-of-range", "C18:parse:int16-s:out-of-range"],
     "Trusted base: ref_civil.h; parse into sub-second targets near their limits is excluded (documented TODO #199; the property restricts itself to whole seconds or coarser).",
